@@ -208,7 +208,7 @@ CLAIMED.update({
             "kernels with zero counts (known finding F3).  Found defects F1, F2, F4, F14 (repaired).",
             "Bounded: one small input; engines are markers; EP kernel assertions are C05/C21; discrete-method rate "
             "validation happens inside the engine.", TECH, "4/C35"),
-    "C37": ("rescale_tree_sequence on 4-6 skeletons with symbolic node times and rate, recording tables: returns, samples "
+    "C37": ("rescale_tree_sequence on 5-7 skeletons (incl. a mutation above a node that is a root only on part of the genome) with symbolic node times and rate, recording tables: returns, samples "
             "kept, monotone map, mutations at branch midpoints / at the node above roots.  Found defect F6 (repaired: 04dea37).",
             "tskit validation of rebuilt tables trusted; zero-count intervals are C35/F3.", TECH, "4/C37"),
 })
